@@ -67,8 +67,9 @@ class Exec:
         obligation is quantifier-free, and by induction over the emits the whole trace equals the expected one."""
         ts = self.spec.trace_spec
         if ts is not None:
-            fn, length = ts
-            self.oblige('trace:each_call_is_the_expected_one_at_its_position', st, record == fn(st.tn), kind='trace')
+            fn, length, normal_len, predicate = ts
+            goal = fn(st.tn, record, st) if predicate else record == fn(st.tn)
+            self.oblige('trace:each_call_is_the_expected_one_at_its_position', st, goal, kind='trace')
             self.oblige('trace:no_call_beyond_the_expected_ones', st, st.tn < length, kind='trace')
         st.emit(record)
 
@@ -151,12 +152,16 @@ class Exec:
             if hasattr(o.obj, attr): return [(st, self.lift_const(getattr(o.obj, attr)))]
             raise Unsupported(f'attribute {attr} of constant {o.obj!r}')
         if isinstance(o, PType):
+            if attr == '__name__' and isinstance(o.of, PExc): return [(st, ZV('str', fresh('excname', StringSort())))]
             if attr == '__name__': return [(st, ZV('str', class_name(class_of(as_kind(o.of, Ref(), st)))))]
             return self.getattr_(st, o.of, attr, node)          # class-level tables are modelled per object
         if isinstance(o, PExc):
             if attr == '__traceback__': return [(st, PConst(TBStub(o)))]
-            if attr == '__cause__': return [(st, o.cause if o.cause is not None else P_NONE)]
+            if attr == '__cause__': return [(st, st.read('__cause__', Val.ref(o.val)))]
             raise Unsupported(f'exception attribute {attr}')
+        if isinstance(o, ZV) and o.kind == 'val' and attr in ('etrue', 'efalse'):
+            # EventCond is a frozen dataclass value
+            return [(st, ZV('val', (ec_true if attr == 'etrue' else ec_false)(Val.ek(o.z))))]
         if isinstance(o, ZV) and o.kind == 'val':
             # attribute of an arbitrary value: it has to be a heap object (type invariant of the contract)
             o = ZV('ref', Val.ref(o.z))
@@ -687,6 +692,8 @@ class Exec:
             return fl
         if isinstance(target, ast.Attribute):
             def then(s1, o):
+                if isinstance(o, PExc) and target.attr == '__cause__':
+                    s1 = s1.copy(); s1.write('__cause__', Val.ref(o.val), v); return [(s1, NEXT)]
                 if isinstance(o, ZV) and o.kind == 'val': o = ZV('ref', Val.ref(o.z))
                 if not (isinstance(o, ZV) and o.kind == 'ref'): raise Unsupported(f'attribute store on {o!r}')
                 s1 = s1.copy(); self.spec.on_field_write(self, s1, target.attr, o.z)
@@ -781,7 +788,10 @@ class Exec:
                 if not (isinstance(c, PConst) and isinstance(c.obj, type) and issubclass(c.obj, BaseException)):
                     raise Unsupported(f'raise of non-class {ast.unparse(cls)}')
                 # constructor arguments are message text: not evaluated (DESIGN 2.2)
-                exc = PExc(c.obj.__name__, val=Val.Obj(fresh('exc', IntSort())), where='raise')
+                from . import calls as _calls
+                r = fresh('exc', IntSort()); s1 = s1.copy()
+                s1.assume(_calls.inst_of(r, c.obj), _calls.inst_of(r, BaseException))
+                exc = PExc(c.obj.__name__, val=Val.Obj(r), where='raise')
                 if s.cause is not None and not (isinstance(s.cause, ast.Constant) and s.cause.value is None):
                     for s2, cv in self.ev(s.cause, s1): exc.cause = cv
                 outs.append((s1, ('raise', exc)))
